@@ -34,6 +34,10 @@ def type_width(ty: str):
     """'bool' -> 'bool'; uN -> N (1..=128 supported: native or arbitrary-int 1..=127); iN only native"""
     if ty == 'bool':
         return 'bool'
+    # custom types of the C09 grammar: CE<w> (exhaustive enum), Option<CQ<w>> (non-exhaustive enum), CN<w> (nested bitfield)
+    for pre, suf in (("CE", ""), ("Option<CQ", ">"), ("CN", "")):
+        if ty.startswith(pre) and ty.endswith(suf) and ty[len(pre):len(ty) - len(suf)].isdigit():
+            return int(ty[len(pre):len(ty) - len(suf)])
     if ty[0] in 'ui' and ty[1:].isdigit():
         w = int(ty[1:])
         if ty[0] == 'i':
